@@ -307,7 +307,18 @@ func verifC20Child(mode string) int {
 	seed, _ := strconv.ParseUint(os.Getenv("VERIF_C20_SEQ"), 10, 64)
 	seq := verifC20Decode(seed)
 
-	// the singleton is initialised exactly once per process
+	// The singleton is initialised exactly once per process. For sequences with an odd parameter
+	// seed the store child initialises it from ANOTHER (empty) directory first and then switches to
+	// the directory under test, as an application does that calls AssetsSetDir twice: what is in
+	// memory before the first store is then the result of a re-read, not of the initialisation.
+	if (mode == "store" || mode == "1") && (seed>>18)&1 == 1 {
+		boot := dir + ".boot"
+		if err := os.MkdirAll(boot, 0o755); err != nil {
+			fmt.Fprintln(os.Stderr, "verif-c20: cannot create the boot directory:", err)
+			return 3
+		}
+		AssetsSetDir(boot)
+	}
 	_, lerr := AssetsSetDir(dir)
 
 	switch mode {
